@@ -71,25 +71,7 @@ def run(chk, facts_dir, tier):
         pass
 
     # R2.3
-    n_rev = 0
-    for path in LOOKUPS:
-        fam = prog.family(path)
-        revs = 0
-        finds = 0
-        for b in fam:
-            chk.analysed(b.path)
-            for bi, t in b.calls():
-                c = b.callee_decl(t) or ""
-                if c.endswith("Iterator::rev"):
-                    revs += 1
-                if c.endswith("Iterator::find_map") or c.endswith("Iterator::find") or c.endswith("Iterator::next"):
-                    finds += 1
-        if revs >= 1 and finds >= 1:
-            n_rev += 1
-            chk.ok("R2.3", "%s searches the segments newest first" % path.split("::")[-1], fam[0].where())
-        else:
-            chk.fail("R2.3", path, "oldest-first", "the lookup no longer walks the sealed segments in descending order (rev=%d): an old version of a stream/partition shadows the latest one" % revs, fam[0])
-    chk.floor("R2.3", n_rev, 6)
+    newest_first(chk, prog, "R2.3", LOOKUPS, 6)
     # within the validator: pending (reversed) before live index before pool
     for fn, idx in ((WS + "read_stream_latest_version", "stream_index"), (WS + "read_partition_latest_sequence", "partition_index")):
         b = prog.body(fn)
@@ -99,6 +81,34 @@ def run(chk, facts_dir, tier):
             chk.ok("R2.3", "%s: live index before the sealed segments" % fn.split("::")[-1], b.where())
         else:
             chk.fail("R2.3", fn, "live-after-sealed", "the live index is not consulted before the sealed segments", b)
+
+    # R2.6 which field of an index record is "the latest"
+    chk.rule("R2.6", "LATEST MEANS MAX: the four lookups of the latest stream version / partition sequence (the writer's and the database's, sibling pairs) read `version_max` / "
+                     "`sequence_max` of an index record - never `sequence` (a per-segment event count), `*_min` or another field: the writer and the query API must agree on what "
+                     "the latest position of a stream or partition is")
+    import json as _json
+    import re as _re
+    want = {"read_stream_latest_version": ("StreamIndexRecord", "version_max"), "get_stream_version": ("StreamIndexRecord", "version_max"),
+            "read_partition_latest_sequence": ("PartitionIndexRecord", "sequence_max"), "get_partition_sequence": ("PartitionIndexRecord", "sequence_max")}
+    n26 = 0
+    for root in (WS + "read_stream_latest_version", WS + "read_partition_latest_sequence", DB + "get_stream_version", DB + "get_partition_sequence"):
+        rec, fld = want[root.rsplit("::", 1)[-1]]
+        fields = set()
+        where = None
+        for b in prog.family(root):
+            for i, j, s_ in b.assigns():
+                js = _json.dumps(s_["rv"])
+                for m in _re.finditer(r'"n": "(\w+)", "o": "[^"]*%s' % rec, js):
+                    fields.add(m.group(1))
+                    where = where or (b, s_["line"])
+        n26 += 1
+        positional = fields - {"partition_key"}
+        if positional == {fld}:
+            chk.ok("R2.6", "%s reads %s.%s" % (root.rsplit("::", 1)[-1], rec, fld), where[0].where(where[1]) if where else "")
+        else:
+            chk.fail("R2.6", root, "latest-field:%s" % ",".join(sorted(positional)) , "the latest position is taken from %s of %s instead of `%s` alone: the query API and the writer disagree about "
+                     "the latest %s" % (sorted(positional), rec, fld, "version" if "version" in fld else "sequence"), where[0] if where else prog.body(root), where[1] if where else None)
+    chk.floor("R2.6", n26, 4)
 
     # R2.5 pending lookups
     n_pl = 0
@@ -161,3 +171,26 @@ def late_bookkeeping(chk, prog, hw, ev, ae, ac, rule):
                 chk.fail(rule, WS + "handle_write", "early-update:" + fname, "%s is updated before the transaction's last record is appended: a failing append leaves writer state changed" % fname, hw, line)
             else:
                 chk.ok(rule, "%s updated after the last fallible append" % fname, hw.where(line))
+
+
+def newest_first(chk, prog, rule, lookups, floor):
+    """the latest-version / latest-sequence lookups walk the sealed segments in descending order (C02 R2.3, C05 R5.5)"""
+    n_rev = 0
+    for path in lookups:
+        fam = prog.family(path)
+        revs = 0
+        finds = 0
+        for b in fam:
+            chk.analysed(b.path)
+            for bi, t in b.calls():
+                c = b.callee_decl(t) or ""
+                if c.endswith("Iterator::rev"):
+                    revs += 1
+                if c.endswith("Iterator::find_map") or c.endswith("Iterator::find") or c.endswith("Iterator::next"):
+                    finds += 1
+        if revs >= 1 and finds >= 1:
+            n_rev += 1
+            chk.ok(rule, "%s searches the segments newest first" % path.split("::")[-1], fam[0].where())
+        else:
+            chk.fail(rule, path, "oldest-first", "the lookup no longer walks the sealed segments in descending order (rev=%d): an old version of a stream/partition shadows the latest one" % revs, fam[0])
+    chk.floor(rule, n_rev, floor)
